@@ -26,7 +26,7 @@ def _round(a, dtype):
 # spec generation (driven by random.Random so one integer decides everything)
 
 def gen_world(rng, fmt=None, apdep=None, n_models=(1, 8), n_ap=(1, 5), n_wav=(5, 40),
-              n_filters=(1, 3), filt_desc=False, allow_mixed=False, dtypes=('f8', 'f4'),
+              n_filters=(1, 3), filt_desc=True, allow_mixed=False, dtypes=('f8', 'f4'),
               allow_gz=True, allow_subdir=True, n_par=(1, 4), allow_zero_band=False):
     w = {}
     w['format'] = fmt if fmt is not None else rng.choice([1, 2])
@@ -45,6 +45,7 @@ def gen_world(rng, fmt=None, apdep=None, n_models=(1, 8), n_ap=(1, 5), n_wav=(5,
     w['gz'] = allow_gz and rng.random() < 0.25
     w['subdir'] = rng.choice([0, 0, 1, 2]) if allow_subdir else 0
     w['n_par'] = rng.randint(*n_par)
+    w['par_dtypes'] = [rng.choice(['D', 'D', 'D', 'E', 'E', 'K']) for _ in range(w['n_par'])]
     w['perm_seed'] = rng.randrange(1 << 30)
     w['logd_step'] = rng.choice([0.02, 0.05, 0.013, 0.1])
     w['array_seed'] = rng.randrange(1 << 30)
@@ -54,9 +55,10 @@ def gen_world(rng, fmt=None, apdep=None, n_models=(1, 8), n_ap=(1, 5), n_wav=(5,
                      'zero_edges': rng.random() < 0.3} for j in range(nf)]
     w['ext_slope'] = round(rng.uniform(1.0, 2.0), 3)
     # unit in which the package stores its fluxes (per-file: any supported family; cube: a flux density)
-    w['flux_unit'] = rng.choice(['mJy', 'mJy', 'Jy', 'ergs/cm^2/s', 'erg/s']) if w['dtype'] == 'f8' else 'mJy'
+    # (any spelling astropy or sedfitter's legacy table understands: 'MJY' is the old spelling of mJy, 'MJy' is mega-jansky)
+    w['flux_unit'] = rng.choice(['mJy', 'mJy', 'Jy', 'ergs/cm^2/s', 'erg/s', 'MJY', 'MJy', 'uJy']) if w['dtype'] == 'f8' else 'mJy'
     if w['format'] == 2 and w['dtype'] == 'f8':
-        w['flux_unit'] = rng.choice(['mJy', 'Jy'])         # cubes hold flux densities
+        w['flux_unit'] = rng.choice(['mJy', 'Jy', 'MJY', 'MJy', 'uJy'])         # cubes hold flux densities
     # per-file SEDs: the error column carries its own unit, which need not be the flux column's
     w['err_unit'] = rng.choice(['mJy', 'Jy', 'ergs/cm^2/s']) if (w['dtype'] == 'f8' and rng.random() < 0.3) else None
     # a model on another wavelength grid may share the number of points and both end points with the others
@@ -161,8 +163,21 @@ class World(object):
         for k, p in enumerate(self.par_names):
             base = 1.02 ** g.permutation(nm) * (k + 1.5)
             self.pars[p] = base * 10.0 ** int(g.integers(-4, 5)) * (-1 if g.random() < 0.2 else 1)
-        if spec.get('nan_param') and nm > 1:
-            self.pars[self.par_names[-1]][int(g.integers(0, nm))] = np.nan
+        nan_at = int(g.integers(0, nm)) if (spec.get('nan_param') and nm > 1) else None
+        # storage type of each parameter column: double, single precision or integer (all 'numeric'); the reference
+        # holds the value the file holds
+        self.par_formats = {}
+        for k, p in enumerate(self.par_names):
+            fm = (spec.get('par_dtypes') or [])[k:k + 1]
+            fm = fm[0] if fm else 'D'
+            if fm == 'E':
+                self.pars[p] = self.pars[p].astype(np.float32).astype(float)
+            elif fm == 'K':
+                gi = np.random.default_rng([spec['array_seed'], 77, k])
+                self.pars[p] = ((gi.permutation(nm) + 1) * int(gi.integers(1, 40)) * (-1 if gi.random() < 0.2 else 1)).astype(float)
+            self.par_formats[p] = fm
+        if nan_at is not None and self.par_formats[self.par_names[-1]] != 'K':
+            self.pars[self.par_names[-1]][nan_at] = np.nan
         self.perm = np.random.default_rng(spec['perm_seed']).permutation(nm)
         # filters
         lo, hi = self.wav[0] * 1.05, self.wav[-1] / 1.05
@@ -275,7 +290,7 @@ class World(object):
             if not spec['asc']:
                 w, v, e = w[::-1], v[:, :, ::-1], e[:, :, ::-1]
             write_cube_file(os.path.join(d, 'flux.fits'), self.names, w, self.aps, v, e, dtype=self.dtype,
-                            unit='Jy' if spec.get('flux_unit') == 'Jy' else 'mJy')
+                            unit=spec.get('flux_unit') if spec.get('flux_unit') in ('Jy', 'MJY', 'MJy', 'uJy') else 'mJy')
             self.write_params(d, np.arange(self.n_models), gz=gz)
         write_conf(d, self.apdep, fmt, spec['logd_step'], spec['subdir'] if fmt == 1 else 0)
         return d
@@ -285,16 +300,20 @@ class World(object):
             if os.path.exists(os.path.join(d, p)):
                 os.remove(os.path.join(d, p))
         write_params(os.path.join(d, 'parameters.fits' + ('.gz' if gz else '')),
-                     [self.names[i] for i in perm], {k: v[perm] for k, v in self.pars.items()})
+                     [self.names[i] for i in perm], {k: v[perm] for k, v in self.pars.items()}, formats=getattr(self, 'par_formats', None))
 
 
 def _from_mjy(a, unit, wav, distance_cm):
     """values given in mJy -> the unit the file stores (the reference model always thinks in mJy)"""
     a = np.asarray(a, float)
-    if unit == 'mJy':
+    if unit in ('mJy', 'MJY'):
         return a
     if unit == 'Jy':
         return a / 1000.
+    if unit == 'uJy':
+        return a * 1000.
+    if unit == 'MJy':
+        return a * 1e-9
     f = a * 1e-26 * nu_of(wav)             # erg / cm^2 / s
     if unit == 'ergs/cm^2/s':
         return f
@@ -366,10 +385,16 @@ def write_cube_file(path, names, wav, aps, val, unc, dtype='f8', unit='mJy', dis
     fits.HDUList(hs).writeto(path, overwrite=True)
 
 
-def write_params(path, names, cols):
+def write_params(path, names, cols, formats=None):
     cs = [fits.Column(name='MODEL_NAME', format='30A', array=np.array(names, dtype='S30'))]
     for k, v in cols.items():
-        cs.append(fits.Column(name=k, format='D', array=np.asarray(v, float)))
+        fm = (formats or {}).get(k, 'D')
+        if fm == 'K':
+            cs.append(fits.Column(name=k, format='K', array=np.asarray(v, float).astype(np.int64)))
+        elif fm == 'E':
+            cs.append(fits.Column(name=k, format='E', array=np.asarray(v, float).astype(np.float32)))
+        else:
+            cs.append(fits.Column(name=k, format='D', array=np.asarray(v, float)))
     h0 = fits.PrimaryHDU()
     h0.header['NMODELS'] = len(names)
     fits.HDUList([h0, fits.BinTableHDU.from_columns(cs)]).writeto(path, overwrite=True)
@@ -442,8 +467,14 @@ def gen_source(rng, nf, name, flags=(0, 1, 1, 1, 2, 3, 4, 9), min_fit=0):
             e = round(rng.uniform(0.01, 0.2), 4)
         flux.append(float('%.6e' % f))
         err.append(float('%.6e' % e))
-    return {'name': name, 'x': round(rng.uniform(0, 360), 5), 'y': round(rng.uniform(-90, 90), 5),
-            'valid': valid, 'flux': flux, 'error': err}
+    src = {'name': name, 'x': round(rng.uniform(0, 360), 5), 'y': round(rng.uniform(-90, 90), 5),
+           'valid': valid, 'flux': flux, 'error': err}
+    # how the caller holds the photometry when it builds a Source object itself: lists, tuples, big-endian arrays (rows of a
+    # FITS catalogue), strided views (every other cell of a flux/error table).  Same values in every case.
+    r = rng.random()
+    if r < 0.3:
+        src['arrays'] = 'big' if r < 0.12 else ('strided' if r < 0.24 else 'tuple')
+    return src
 
 
 def source_line(s):
@@ -457,7 +488,25 @@ def make_source(s):
     o.name = s['name']
     o.x = float(s['x'])
     o.y = float(s['y'])
-    o.valid = list(s['valid'])
-    o.flux = list(s['flux'])
-    o.error = list(s['error'])
+    kind = s.get('arrays', 'list')
+    if kind == 'big':
+        o.valid = np.array(s['valid'], dtype='>i4')
+        o.flux = np.array(s['flux'], dtype='>f8')
+        o.error = np.array(s['error'], dtype='>f8')
+    elif kind == 'strided':
+        n = len(s['valid'])
+        tab = np.zeros((n, 2))
+        tab[:, 0] = s['flux']
+        tab[:, 1] = s['error']
+        o.valid = np.array(list(s['valid']) + [0] * n)[:n]
+        o.flux = tab[:, 0]
+        o.error = tab[:, 1]
+    elif kind == 'tuple':
+        o.valid = tuple(s['valid'])
+        o.flux = tuple(s['flux'])
+        o.error = tuple(s['error'])
+    else:
+        o.valid = list(s['valid'])
+        o.flux = list(s['flux'])
+        o.error = list(s['error'])
     return o
